@@ -194,6 +194,32 @@ def check_c11(tier, seed):
                             break
                 finally:
                     shutil.rmtree(moved, ignore_errors=True)
+            # edited source: generate, edit the declarations (one removed, the others reordered), generate again - the
+            # result must be what a clean directory gives for the edited source
+            if tg is targets[0]:
+                kpath = os.path.join(M.root, "app", "kessoku.go")
+                v1 = open(kpath).read()
+                parts = v1.split("var _ = kessoku.Inject")
+                if len(parts) == 3:
+                    v2 = parts[0] + "var _ = kessoku.Inject" + parts[2]          # the first declaration ("app") removed
+                    clean(); gen(tg)
+                    open(kpath, "w").write(v2)
+                    try:
+                        gen(tg)
+                        edited = [open(o, "rb").read() if os.path.exists(o) else b"" for o in outs(tg)]
+                        clean(); gen(tg)
+                        fresh = [open(o, "rb").read() if os.path.exists(o) else b"" for o in outs(tg)]
+                        for o, a2, b2 in zip(outs(tg), edited, fresh):
+                            if a2 != b2:
+                                import difflib
+                                dd = "\n".join(list(difflib.unified_diff(b2.decode(errors="replace").split("\n"), a2.decode(errors="replace").split("\n"), lineterm="", n=0))[:12])
+                                R.finding("nondeterministic:edited-source", "after removing a declaration from the source, regenerating over the previous output gives %s different from a clean directory\n%s" % (os.path.relpath(o, M.root), dd),
+                                          {"kind": "input", "failing_input": {"files": tg, "v1": v1, "v2": v2}, "history": ["generate from v1", "replace app/kessoku.go by v2", "generate again", "compare with a clean generation from v2"], "diff": dd})
+                                break
+                    finally:
+                        open(kpath, "w").write(v1)
+                        clean()
+                        gen(tg)
             # leftover output of the previous run
             clean(); gen(tg); gen(tg)
             compare("leftover: second run with the previous output present", ["fresh run", "run again without deleting *_band.go"])
